@@ -160,6 +160,11 @@ var concurrentScenarios = []string{
 
 // degenerate forms: each is a family the grammar accepts (or nearly) with an empty / odd part
 var degenerateForms = []string{
+	// a module used as a TYPE: the zero value of that type is a nil scope pointer
+	"module zm { x = 1 }\nmake(type ZM, zm)\nza = make([]ZM, 1)\nza[0].x", "module zm { x = 1 }\nmake(type ZM, zm)\nza = make([]ZM, 1)\nza[0].x = 2",
+	"module zm { x = 1 }\nmake(type ZM, zm)\nza = make([]ZM, 1)\nzb = za[0]\nzb", "module zm { x = 1 }\nmake(type ZM, zm)\nza = make([]ZM, 1)\nvar zb = za[0]\nzb.x",
+	"module zm { x = 1 }\nmake(type ZM, zm)\nzq = make(map[string]ZM)\nzq[\"a\"].x", "module zm { x = 1 }\nmake(type ZM, zm)\nzs = make(struct { M ZM })\nzs.M.x\nzs.M.x = 1\nzc = zs.M",
+	"module zm { x = 1 }\nmake(type ZM, zm)\nza = make([]ZM, 1)\nfunc zf(a) { return a }\nzf(za[0])\nzf(za[0]).x", "module zm { x = 1 }\nmake(type ZM, zm)\nza = make([]ZM, 1)\nmake(za[0].T)\nza[0].f()",
 	// texts cut off right behind an operator and a blank (the scanner looks ahead for `= <-`, `<-`, `...`)
 	"a = ", "a =  ", "x = 1\nif x == 1 {\n\ty = ", "a = <", "a = <-", "a = <- ", "a, b = ", "var a = ", "a += ", "a[0] = ", "a.b = ", "a = [", "a = {", "a ? ", "a ?? ", "a . ", "a .. ", "f(a.", "a <", "a < ", "a <-", "<", "=", "= ", ".", "..",
 	"var a =", "var a, b =", "a, b =", "a =", "= 1", "var = 1", "*a = 1", "*pt = 1", "*pn = 1", "*nilptr = 1", "*v = 1", "*c = 1", "*f = 1", "&1", "&a.b", "&c[9]", "*nilptr", "*a",
